@@ -126,6 +126,8 @@ impl ShardResult {
             *self.excluded_known.entry(k).or_default() += v;
         }
         self.unconfirmed += other.unconfirmed;
+        // exhaustive only if every shard that contributed says so
+        self.exhaustive = if self.evaluations == other.evaluations { other.exhaustive } else { self.exhaustive && other.exhaustive };
         self.failures.extend(other.failures);
         self.notes.extend(other.notes);
         for (k, v) in other.extra {
@@ -373,7 +375,9 @@ impl<'a> Driver<'a> {
                 let mut e = mk_env();
                 let v = catch_check(check, &mut e, &case);
                 return match v {
-                    Verdict::Fail { signature, detail } if shrink_key(&signature) == sig => {
+                    // a candidate that fails with a *listed known* signature is not a smaller instance
+                    // of the unknown failure being shrunk: never shrink into a known finding
+                    Verdict::Fail { signature, detail } if shrink_key(&signature) == sig && !is_known_open(&signature) => {
                         *last_fail.borrow_mut() = Some((signature.clone(), detail));
                         Err(TestCaseError::fail(signature))
                     }
@@ -780,7 +784,14 @@ pub fn run_master(prop: &dyn Prop, tier: Tier, seed: u64) -> i32 {
             // confirm from the saved input alone, in a child, with twice the per-case timeout
             let f = Failure { signature: "stuck:unconfirmed".into(), detail: format!("worker {how} ({exit_desc}): {tail}"), case: case.clone(), kind: kind.clone() };
             let p = save_replay(id, &f);
-            let (confirmed, err_tail) = confirm_stuck(&exe, id, &p, case_timeout.as_secs() * 2 + 20);
+            // a hang whose class (computed from the case alone) is a listed known finding is not
+            // re-run: confirming it would only spend the timeout again
+            let guess = prop.classify_stuck(&kind, &case, "hang");
+            let (confirmed, err_tail) = if how == "hang" && known.iter().any(|k| k.status == "open" && k.signature == guess) {
+                (Some("hang"), String::new())
+            } else {
+                confirm_stuck(&exe, id, &p, case_timeout.as_secs() * 2 + 20)
+            };
             let _ = std::fs::remove_file(&p);
             match confirmed {
                 Some(what) => {
